@@ -262,6 +262,10 @@ class Models:
 
     def b_dict(self, v=None, **kw):
         ex = self.ex
+        from . import loops
+        m = loops.map_of(ex, v) if v is not None else None
+        if m is not None and not kw:
+            return ex.run.alloc(HDict(sym=m))       # dict(mapping): a new dict with the same content (same insertion order)
         d = ex.run.alloc(HDict(items={}))
         if v is not None:
             try:
@@ -729,6 +733,9 @@ class Models:
     def x_orjson(self):
         return OrjsonModule()
 
+    def x_json(self):
+        return JsonStdModule()
+
     def x_numpy(self):
         return NumpyModule()
 
@@ -749,6 +756,13 @@ class Models:
 
     def x_h5py(self):
         return ModuleVal(('ext', 'h5py'))
+
+    # ------------------------------------------------------------------ filelock (A-lock): sequential semantics only
+    def x_filelock_FileLock(self):
+        return Builtin('FileLock', lambda ex_, a, k: LockObj())
+
+    def x_logging(self):
+        return LoggingModule()
 
     # ------------------------------------------------------------------ inspect (A-inspect)
     def x_inspect_signature(self):
@@ -916,6 +930,15 @@ class Models:
             return Sym(s_.kind, z3.SubSeq(s_.t, lo, hi - lo))
         return Builtin('prims.seq_slice', f)
 
+    def x_pyvc_prims_same_map(self):
+        def f(ex_, a, k):
+            from . import loops
+            m1, m2 = loops.map_of(ex_, a[0]), loops.map_of(ex_, a[1])
+            if m1 is None or m2 is None:
+                raise OutOfSubset('same_map on concrete dicts')
+            return Sym(K.Bool, m1.t == m2.t)
+        return Builtin('prims.same_map', f)
+
     def x_pyvc_prims_all_of(self):
         def f(ex_, a, k):
             acc = True
@@ -1041,6 +1064,25 @@ class OrjsonModule(ExtObj):
         return Sym(K.U('Val', plain=True), P.ufn('orjson_loads', [z3.StringSort()], K.U('Val').sort())(st))
 
 
+class JsonStdModule(ExtObj):
+    """json.dumps (A-json): with sort_keys=True the text of a mapping is a function of the mapping alone (not of
+    its insertion order), injective on JSON-distinguishable mappings; without it, of the ordered mapping."""
+
+    def m_dumps(self, ex, obj, sort_keys=False, **kw):
+        from . import loops
+        ex.run.assumed.add('A-json')
+        m = loops.map_of(ex, obj)
+        if m is None:
+            vt = lib_val(ex, obj)
+            return Sym(K.Str, P.ufn('json_dumps_' + str(vt.sort()) + ('_sorted' if sort_keys is True else ''), [vt.sort()], z3.StringSort())(vt))
+        if sort_keys is True:
+            arr = m.kind.arr(m.t)
+            return Sym(K.Str, P.ufn('json_dumps_sorted_' + m.kind.name, [arr.sort()], z3.StringSort())(arr))
+        if sort_keys is False:
+            return Sym(K.Str, P.ufn('json_dumps_ordered_' + m.kind.name, [m.kind.sort()], z3.StringSort())(m.t))
+        raise OutOfSubset('json.dumps with symbolic sort_keys')
+
+
 class OrjsonBytes(ExtObj):
     def __init__(self, text):
         self.text = text
@@ -1124,6 +1166,42 @@ class YamlModule(ExtObj):
 class PltModule(ExtObj):
     def m_close(self, ex, fig):
         ex.run.trace.append(Event('plt.close', None, [fig], 'ret'))
+
+
+class LockObj(ExtObj):
+    def enter(self, ex):
+        ex.run.trace.append(Event('lock.acquire', None, [], 'ret'))
+        return self
+
+    def exit(self, ex):
+        ex.run.trace.append(Event('lock.release', None, [], 'ret'))
+
+
+class LoggerObj(ExtObj):
+    def __init__(self, name):
+        self.name = name
+
+    def _noop(self, ex, *a, **k):
+        return None
+    m_debug = m_info = m_warning = m_error = m_exception = m_setLevel = m_addHandler = m_removeHandler = _noop
+
+
+class LoggingModule(ExtObj):
+    DEBUG, INFO, WARNING = 10, 20, 30
+
+    def getattr(self, ex, name):
+        if name in ('DEBUG', 'INFO', 'WARNING', 'ERROR'):
+            return {'DEBUG': 10, 'INFO': 20, 'WARNING': 30, 'ERROR': 40}[name]
+        return ExtObj.getattr(self, ex, name)
+
+    def m_getLogger(self, ex, name=None):
+        return LoggerObj(name)
+
+    def m_warning(self, ex, *a):
+        return None
+
+    def m_StreamHandler(self, ex, *a):
+        return LoggerObj('handler')
 
 
 class SigDecl(ExtObj):
